@@ -566,7 +566,23 @@ func genRest(t *rapid.T) RestCase {
 	n := pbt.Range(t, 5, 30)
 	for i := 0; i < n; i++ {
 		via := pbt.Pick(t, []string{"rest", "client"})
-		switch pbt.Pick(t, []string{"states", "state", "state", "info", "info", "logs", "logs", "projstate", "ports", "stop", "start", "restart", "scale", "stopmany", "updateproc", "raw", "exit", "line"}) {
+		kind := pbt.Pick(t, []string{"states", "state", "state", "info", "info", "logs", "logs", "projstate", "ports", "stop", "start", "restart", "scale", "scale", "stopmany", "updateproc", "raw", "exit", "line", "again", "again", "again"})
+		if kind == "again" {
+			// the same question once more after whatever happened in between: a view that is
+			// not recomputed from the runner shows here
+			var reads []RStep
+			for _, st := range c.Steps {
+				if st.Kind == "state" || st.Kind == "info" || st.Kind == "ports" || st.Kind == "logs" {
+					reads = append(reads, st)
+				}
+			}
+			if len(reads) > 0 {
+				c.Steps = append(c.Steps, reads[pbt.Range(t, 0, len(reads)-1)])
+				continue
+			}
+			kind = "info"
+		}
+		switch kind {
 		case "states":
 			c.Steps = append(c.Steps, RStep{Kind: "states"})
 		case "state":
